@@ -26,6 +26,20 @@ def read_inst(rd, lines, ll, shortmask=0, ob="O1", **kw):
                 (lines, ll, shortmask, {0: "auto-detected", 1: "fasta", 2: "msf", 3: "clustal"}[rd]),
                 desc="reader on arbitrary bytes: memory safety + post-conditions", **kw)
 
+def hole_inst(tpl, hole, ll, **kw):
+    """well-formed MSF / Clustal text with ONE line replaced by ll arbitrary bytes"""
+    lines = {2: 12, 3: 9}[tpl]
+    i = read_inst(tpl, lines, ll, 0, **kw)
+    i.name = "hole_%s_line%d_l%d" % ({2: "msf", 3: "clu"}[tpl], hole, ll)
+    i.defs = dict(i.defs, VK_TPL=tpl, VK_HOLE=hole, VK_MSA_CAP=4, VK_SEQ_CAP=ll + 12, VK_STR_MAX=50)
+    i.unwind = max(ll + 16, 52)
+    i.nb = ll
+    i.cost = ll * 4
+    i.bound = "well-formed %s text of %d lines with line %d replaced by %d arbitrary bytes (32..255 except DEL)" % ({2: "MSF", 3: "Clustal"}[tpl], lines, hole, ll)
+    i.desc = "reader on structured text with one damaged line: memory safety + post-conditions"
+    return i
+
+
 def instances(tier):
     out = []
     if tier == "quick":
@@ -35,6 +49,13 @@ def instances(tier):
         tup = [(1, 2, 2, 0), (1, 3, 2, 0), (1, 4, 2, 0b0101), (1, 3, 3, 0), (1, 5, 2, 0b01010), (1, 4, 3, 0), (3, 3, 3, 0), (2, 3, 3, 0), (0, 3, 2, 0)]
     for rd, lines, ll, sm in tup:
         out.append(read_inst(rd, lines, ll, sm, timeout=1500 if tier == "quick" else 3600, mem_gb=8 if tier == "quick" else 14))
+    # structured text with one damaged line.  Decided: a damaged body line (3-4 bytes) and a damaged Clustal header; a damaged
+    # MSF header line ("//", Name:) makes the number of header lines symbolic and with it every later line pointer: symex
+    # does not finish in 300 s (thorough-tier attempts with a long cap).
+    holes = [(2, 10, 4), (3, 3, 3), (3, 0, 6), (3, 7, 3)] if tier == "quick" else \
+            [(2, 10, 4), (2, 9, 3), (2, 5, 3), (2, 7, 2), (3, 3, 3), (3, 3, 4), (3, 0, 6), (3, 0, 12), (3, 6, 4), (3, 7, 3), (3, 4, 4)]
+    for tpl, hole, ll in holes:
+        out.append(hole_inst(tpl, hole, ll, timeout=600 if tier == "quick" else 2400, mem_gb=8 if tier == "quick" else 16))
     for lines, ll in ([(2, 3)] if tier == "quick" else [(1, 1), (2, 3), (3, 2), (3, 4)]):
         out.append(Inst(ob="O1", name="stdin_l%dx%d" % (lines, ll), harness="c05_stdin.c",
                         defs={"VK_LINES": lines, "VK_LL": ll, "VK_MSA_CAP": 2, "VK_SEQ_CAP": 4, "VK_STR_MAX": 30, "VK_OUT_LINES": 2, "VK_OUT_W": 8},
